@@ -115,6 +115,16 @@ structure CallOut where
   due : Nat
   deriving Repr
 
+/-- one entry of g_io_events[]: what the poll reported.  For a connection the entry holds the CONTEXT POINTER the
+    socket was registered with (`id` = serial of the interactive_t), resolved when the poll returns - not when the entry
+    is processed: an earlier entry of the same batch may have freed that record meanwhile (remove_interactive() then
+    clears the context of the entries still waiting - fix commit - so a stale entry can never reach a younger record
+    that the allocator placed at the same address). -/
+inductive IoEv
+  | wakeup | accept (client : Nat) | data (id : Nat) (text : String) | eof (id : Nat) | hup (id : Nat)
+  | console (text : String)
+  deriving Repr, DecidableEq
+
 structure W where
   mode : Mode := .net
   meh : Meh := .ok
@@ -146,6 +156,7 @@ structure W where
   closedByScript : List Nat := []
   outs : List (Nat × String) := []   -- output of connections the driver has closed
   masterRef : Int := 0            -- ghost: master_ob->ref relative to the start of backend()
+  backlog : List IoEv := []       -- entries of g_io_events[] a longjmp out of process_io() left unprocessed
   crashed : Option String := none
   trace : List Ev := []
 
@@ -484,10 +495,6 @@ def userData (w : W) (id : Nat) (telnet : Bool) (text : String) : W :=
     let w := mapConn w id (bufferText ls (splitLines c.part text).2)
     if telnet then addOut w c.ob (String.join (ls.map (fun _ => "|"))) else w
 
-inductive IoEv
-  | wakeup | accept (client : Nat) | data (client : Nat) (text : String) | eof (client : Nat) | console (text : String)
-  deriving Repr
-
 def connOfClient (w : W) (client : Nat) : Option Conn :=
   ((slots w).find? (fun s => match s with | some c => c.client == client | none => false)).join
 
@@ -495,8 +502,8 @@ def connOfClient (w : W) (client : Nat) : Option Conn :=
 def ioEvent (S : Scripts) (rh : HookFn) (w : W) : IoEv → R
   | .wakeup => (w, false)
   | .accept client => acceptConn S rh w client
-  | .data client text =>
-    match connOfClient w client with
+  | .data id text =>
+    match findConn w id with                  -- is_interactive_user (evt->context)
     | none => (w, false)
     | some c =>
       -- "Validate interactive is still valid": !ip->ob || destructed || ip->ob->interactive != ip
@@ -504,8 +511,16 @@ def ioEvent (S : Scripts) (rh : HookFn) (w : W) : IoEv → R
       let w := userData w c.id true text
       -- after get_user_data: re-validated through the saved object (fix commit), never through ip
       (w, false)
-  | .eof client =>
-    match connOfClient w client with
+  | .eof id =>
+    -- EVENT_READ, recv() returns 0: get_user_data() calls remove_interactive (ip->ob, 0)
+    match findConn w id with
+    | none => (w, false)
+    | some c =>
+      if w.dead c.ob || w.inter c.ob ≠ some c.id then (w, false) else
+      (removeInteractive rh w c.ob false, false)
+  | .hup id =>
+    -- EVENT_ERROR | EVENT_CLOSE (connection reset): remove_interactive (ip->ob, 0) without reading
+    match findConn w id with
     | none => (w, false)
     | some c =>
       if w.dead c.ob || w.inter c.ob ≠ some c.id then (w, false) else
@@ -525,6 +540,25 @@ def processIoEvents (S : Scripts) (rh : HookFn) : List IoEv → W → R
   | [], w => (w, false)
   | e :: es, w =>
     if (ioEvent S rh w e).2 then ((ioEvent S rh w e).1, true) else processIoEvents S rh es (ioEvent S rh w e).1
+
+/-- the entries behind the one whose handler left process_io() by longjmp (an uncaught error in logon()): they are
+    never looked at again, but their descriptors are still ready, so the next poll reports them once more
+    (level-triggered registration) -/
+def abandoned (S : Scripts) (rh : HookFn) : List IoEv → W → List IoEv
+  | [], _ => []
+  | e :: es, w => if (ioEvent S rh w e).2 then es else abandoned S rh es (ioEvent S rh w e).1
+
+/-- connection events are reported again; a console completion is not (its doorbell has been reset) and a second
+    pending connection is not scripted -/
+def isConnEv : IoEv → Bool
+  | .data _ _ | .eof _ | .hup _ => true
+  | _ => false
+
+def clearBacklog (w : W) : W := { w with backlog := [] }
+def setBacklog (w : W) (l : List IoEv) : W := { w with backlog := l }
+
+/-- what the next poll reports on top of the new events -/
+def pendingEvents (w : W) : List IoEv := w.backlog.filter isConnEv
 
 /-- process_io(): all events, then `if (all_users && all_users[0]) flush_message (all_users[0])` -/
 def processIo (S : Scripts) (rh : HookFn) (w : W) (evs : List IoEv) : R :=
@@ -675,7 +709,8 @@ def callHeartBeat (rh : HookFn) (w : W) : R :=
 /-! ## backend() -/
 
 inductive Action
-  | tick (dt : Int) | conn (c : Nat) | send (c : Nat) (text : String) | close (c : Nat) | cin (text : String) | idle
+  | tick (dt : Int) | conn (c : Nat) | send (c : Nat) (text : String) | close (c : Nat) | reset (c : Nat)
+  | cin (text : String) | idle
   deriving Repr
 
 /-- what the outside world does while the driver waits in do_comm_polling(): returns the reported I/O events -/
@@ -684,12 +719,18 @@ def applyAction (w : W) : Action → W × List IoEv
   | .conn c => (w, [.accept c])
   | .send c text =>
     match connOfClient w c with
-    | some _ => (w, [.data c text])
+    | some r => (w, [.data r.id text])
     | none => (w, [])
   | .close c =>
     let w := { w with closedByScript := c :: w.closedByScript }
     match connOfClient w c with
-    | some _ => (w, [.eof c])
+    | some r => (w, [.eof r.id])
+    | none => (w, [])
+  | .reset c =>
+    -- the client aborts the connection (RST): the socket reports error / hang-up
+    let w := { w with closedByScript := c :: w.closedByScript }
+    match connOfClient w c with
+    | some r => (w, [.hup r.id])
     | none => (w, [])
   | .cin text => if w.mode = .console then (w, [.console text]) else (w, [])   -- no console queue in network mode
   | .idle => (w, [])
@@ -710,8 +751,8 @@ def cycleHead (n : Nat) (acts : List Action) (w : W) : W × List IoEv :=
 
 /-- the body of one iteration after the poll: process_io, the command loop, call_heart_beat -/
 def cycleBody (S : Scripts) (rh : HookFn) (connected : Nat) (w : W) (evs : List IoEv) : W × Bool :=
-  let r1 := if evs.isEmpty then (w, false) else processIo S rh w evs
-  if r1.2 then (recover r1.1, false) else
+  let r1 := if evs.isEmpty then (clearBacklog w, false) else processIo S rh (clearBacklog w) evs
+  if r1.2 then (recover (setBacklog r1.1 (abandoned S rh evs (clearBacklog w))), false) else
   let r2 := commandLoop rh connected r1.1
   if r2.2 then (recover r2.1, false) else
   if r2.1.hbFlag then
@@ -723,7 +764,8 @@ def cycleBody (S : Scripts) (rh : HookFn) (connected : Nat) (w : W) (evs : List 
     The Bool says whether the iteration reached its end (where the H1 hook sits) instead of leaving by longjmp. -/
 def cycle (S : Scripts) (rh : HookFn) (n : Nat) (acts : List Action) (w : W) : W × Bool :=
   if w.shutdown then (w, false) else
-  cycleBody S rh ((slots w).filter Option.isSome).length (cycleHead n acts w).1 (cycleHead n acts w).2
+  cycleBody S rh ((slots w).filter Option.isSome).length (cycleHead n acts w).1
+    (pendingEvents w ++ (cycleHead n acts w).2)
 
 /-- backend() up to the loop: save_context, recovery point, then the start-up steps - initial tick, console user -
     each exactly once even when the previous one left through the recovery point (fix commits) -/
